@@ -165,6 +165,7 @@ impl Machine {
                     do_jump = tri!(ops::binop(op, a, b).map_err(|e| format!("{:?}", e))).as_i() != 0;
                 }
             }
+            if std::env::var("TV_DEBUG_MACHINE").is_ok() { eprintln!("pc={} op={} time={} ins.time={} do_jump={} time_slot={:?} sig={}", pc, ins.opcode, self.time, ins.time, do_jump, time_slot.as_ref().map(|t| t.bits), sig); }
             if do_jump {
                 let Some(o) = off_slot else { return Stop::Error(format!("opcode {}: jump without offset arg", ins.opcode)); };
                 if o.is_reg { return Stop::Error("jump offset is a register".into()); }
